@@ -94,6 +94,30 @@ fn c12_centroid3(a: Point3<R>, b: Point3<R>, c: Point3<R>, d: Point3<R>) {
     vassert_eq("centroid n=4", Point3::centroid(&[a, b, c, d]), Point3::new((a.x + b.x + c.x + d.x) / R(4.0), (a.y + b.y + c.y + d.y) / R(4.0), (a.z + b.z + c.z + d.z) / R(4.0)));
     vcover("end");
 }
+// longer lists (BOUND: 1-8 points); the sum of position vectors divided by n
+fn c12_centroid3_long(p: [Point3<R>; 8]) {
+    let mut n = 5;
+    while n <= 8 {
+        let mut sx = R(0.0); let mut sy = R(0.0); let mut sz = R(0.0);
+        let mut i = 0; while i < n { sx = sx + p[i].x; sy = sy + p[i].y; sz = sz + p[i].z; i += 1; }
+        let k = R(n as f64);
+        let c = Point3::centroid(&p[..n]);
+        vassert_eq("centroid n=5..8", c, Point3::new(sx / k, sy / k, sz / k));
+        n += 1;
+    }
+    vcover("end");
+}
+fn c12_centroid2_long(p: [Point2<R>; 7]) {
+    let mut n = 5;
+    while n <= 7 {
+        let mut sx = R(0.0); let mut sy = R(0.0);
+        let mut i = 0; while i < n { sx = sx + p[i].x; sy = sy + p[i].y; i += 1; }
+        let k = R(n as f64);
+        vassert_eq("centroid n=5..7", Point2::centroid(&p[..n]), Point2::new(sx / k, sy / k));
+        n += 1;
+    }
+    vcover("end");
+}
 fn c12_centroid2(a: Point2<R>, b: Point2<R>, c: Point2<R>) {
     vassert_eq("centroid n=1", Point2::centroid(&[a]), a);
     vassert_eq("centroid n=2", Point2::centroid(&[a, b]), Point2::new((a.x + b.x) / R(2.0), (a.y + b.y) / R(2.0)));
